@@ -547,7 +547,7 @@ def c15(tier, seed):
             gids_ = set(g_.unique_id for g_ in h.get_list_extant_genes())
             tids_ = set(str(t_) for t_ in h.get_dict_top_level_hogs())
             for x_ in sorted(gids_ | tids_):
-                if x_.isdigit() and str(int(x_)) == x_ and len(x_) < 6:
+                if x_.isascii() and x_.isdigit() and str(int(x_)) == x_ and len(x_) < 6:
                     for alt_ in ([float(int(x_))] + ([bool(int(x_))] if int(x_) in (0, 1) else [])):
                         if str(alt_) not in gids_:
                             expect_key(h.get_gene_by_id, alt_)
@@ -557,7 +557,7 @@ def c15(tier, seed):
             for g in h.get_list_extant_genes():
                 if h.get_gene_by_id(g.unique_id) is not g:
                     bad.append('get_gene_by_id(%r)' % g.unique_id)
-                if g.unique_id.isdigit() and str(int(g.unique_id)) == g.unique_id and h.get_gene_by_id(int(g.unique_id)) is not g:
+                if g.unique_id.isascii() and g.unique_id.isdigit() and str(int(g.unique_id)) == g.unique_id and h.get_gene_by_id(int(g.unique_id)) is not g:
                     bad.append('get_gene_by_id(int %s)' % g.unique_id)
                 if h.get_dict_extant_genes().get(g.unique_id) is not g:
                     bad.append('dict of extant genes for %s' % g.unique_id)
@@ -585,7 +585,7 @@ def c15(tier, seed):
                     continue            # a family written without id is listed, but there is no id to look it up by
                 if h.get_hog_by_id(hid) is not top:
                     bad.append('get_hog_by_id(%r)' % hid)
-                if hid.isdigit() and str(int(hid)) == hid and h.get_hog_by_id(int(hid)) is not top:
+                if hid.isascii() and hid.isdigit() and str(int(hid)) == hid and h.get_hog_by_id(int(hid)) is not top:
                     bad.append('get_hog_by_id(int %s)' % hid)
             if collections.Counter(map(id, h.get_list_top_level_hogs())) != collections.Counter(map(id, h.get_dict_top_level_hogs().values())):
                 bad.append('list vs dict of top-level hogs')
@@ -621,7 +621,7 @@ def c15(tier, seed):
                     bad.append('get_ancestral_genome_by_mrca_of_genome_set of a single genome raised %s' % type(e).__name__)
             # cross-reference values that look like integers are found under their integer form too (keys are str()-ed)
             for v in list(xm)[:30]:
-                if v.isdigit() and str(int(v)) == v:
+                if v.isascii() and v.isdigit() and str(int(v)) == v:
                     try:
                         if sorted(x.unique_id for x in h.get_genes_by_external_id(int(v))) != sorted(xm[v]):
                             bad.append('get_genes_by_external_id(int %s) differs from the lookup by the string' % v)
